@@ -4,6 +4,7 @@ package b
 
 import (
 	"bytes"
+	"context"
 	"encoding/json"
 	"errors"
 	"fmt"
@@ -30,6 +31,8 @@ type c11rt struct {
 	failReq  string     // the call containing this request identity fails
 	// healthy answers carry "errors": []
 	emptyErrors bool
+	// every executed request gets a serial number of its own (a service is not idempotent)
+	serial int
 }
 
 func (t *c11rt) RoundTrip(r *http.Request) (*http.Response, error) {
@@ -54,6 +57,9 @@ func (t *c11rt) RoundTrip(r *http.Request) (*http.Response, error) {
 		switch t.failWith {
 		case "transport":
 			return nil, errors.New("injected transport error")
+		case "transport-canceled":
+			// what a transport reports when a context it watches ends (wraps context.Canceled)
+			return nil, fmt.Errorf("Post \"http://svc\": %w", context.Canceled)
 		case "transport-eof":
 			// the connection broke after the service received the call
 			return nil, fmt.Errorf("read tcp: %w", io.EOF)
@@ -86,7 +92,8 @@ func (t *c11rt) RoundTrip(r *http.Request) (*http.Response, error) {
 	}
 	out := make([]map[string]interface{}, len(reqs))
 	for i, q := range reqs {
-		out[i] = map[string]interface{}{"data": map[string]interface{}{"echo": q.Query}}
+		t.serial++
+		out[i] = map[string]interface{}{"data": map[string]interface{}{"echo": q.Query, "serial": t.serial}}
 		if t.emptyErrors {
 			out[i]["errors"] = []interface{}{} // healthy answers that spell out an empty errors list
 		}
@@ -95,7 +102,22 @@ func (t *c11rt) RoundTrip(r *http.Request) (*http.Response, error) {
 	return &http.Response{StatusCode: 200, Body: io.NopCloser(bytes.NewReader(b)), Header: http.Header{}}, nil
 }
 
-func c11Harness(n, m int, failWith string, failIdx int) explore.Harness {
+// c11ID names request i: "distinct" q0..q(n-1); "equal" all q0; "period" q(i mod m) (the chunks are byte-equal)
+func c11ID(pattern string, i, m int) string {
+	switch pattern {
+	case "equal":
+		return "q0"
+	case "period":
+		return fmt.Sprintf("q%d", i%m)
+	}
+	return fmt.Sprintf("q%d", i)
+}
+
+func c11Harness(n, m int, failWith string, failIdx int, pattern ...string) explore.Harness {
+	pat := "distinct"
+	if len(pattern) > 0 {
+		pat = pattern[0]
+	}
 	return func() (func(), func(*vrt.Sched) (string, string)) {
 		rt := &c11rt{failWith: failWith}
 		if failWith == "ok-empty-errors" {
@@ -111,13 +133,13 @@ func c11Harness(n, m int, failWith string, failIdx int) explore.Harness {
 			q := queryer.NewMultiOpQueryer("http://svc", m).WithHTTPClient(&http.Client{Transport: rt})
 			in := make([]*requests.Request, n)
 			for i := range in {
-				in[i] = &requests.Request{Query: fmt.Sprintf("q%d", i)}
+				in[i] = &requests.Request{Query: c11ID(pat, i, m)}
 			}
 			res, err = q.Query(in)
 			returned = true
 		}
 		check := func(s *vrt.Sched) (string, string) {
-			v := c11Verdict(n, m, rt, res, err, returned, s)
+			v := c11Verdict(n, m, rt, res, err, returned, s, pat)
 			order := ""
 			for _, c := range rt.calls {
 				order += "[" + strings.Join(c, " ") + "]"
@@ -128,7 +150,7 @@ func c11Harness(n, m int, failWith string, failIdx int) explore.Harness {
 	}
 }
 
-func c11Verdict(n, m int, rt *c11rt, res []map[string]interface{}, err error, returned bool, s *vrt.Sched) string {
+func c11Verdict(n, m int, rt *c11rt, res []map[string]interface{}, err error, returned bool, s *vrt.Sched, pat string) string {
 	if s.Fatal != "" {
 		return "FATAL " + s.Fatal + " in " + roleOf(s.FatalG)
 	}
@@ -153,12 +175,16 @@ func c11Verdict(n, m int, rt *c11rt, res []map[string]interface{}, err error, re
 			seen[id]++
 		}
 	}
+	mult := map[string]int{}
 	for i := 0; i < n; i++ {
-		k := seen[fmt.Sprintf("q%d", i)]
-		if k > 1 {
+		mult[c11ID(pat, i, m)]++
+	}
+	for id, want := range mult {
+		k := seen[id]
+		if k > want {
 			return "request sent in more than one HTTP call"
 		}
-		if k == 0 && rt.failWith == "" {
+		if k < want && rt.failWith == "" {
 			return "request never sent"
 		}
 	}
@@ -177,10 +203,15 @@ func c11Verdict(n, m int, rt *c11rt, res []map[string]interface{}, err error, re
 	if len(res) != n {
 		return fmt.Sprintf("returned %d results for %d requests", len(res), n)
 	}
+	serials := map[interface{}]bool{}
 	for i, r := range res {
-		if r == nil || r["echo"] != fmt.Sprintf("q%d", i) {
+		if r == nil || r["echo"] != c11ID(pat, i, m) {
 			return "result at position i does not answer request i"
 		}
+		if serials[r["serial"]] {
+			return "result at position i does not answer request i (two results carry the answer to one executed request)"
+		}
+		serials[r["serial"]] = true
 	}
 	return ""
 }
@@ -188,7 +219,7 @@ func c11Verdict(n, m int, rt *c11rt, res []map[string]interface{}, err error, re
 func init() {
 	Specs["C11"] = &Spec{
 		ID: "C11",
-		Rule: "scenario = (N requests, max batch size m, failure kind in {none, none with answers that spell out empty errors lists, transport error, transport error wrapping EOF (connection broke after the call arrived), status 500, 502 with a well-formed body, non-JSON body, GraphQL errors in the element, empty errors list with null data}, failing chunk); all completion orders of the concurrent chunk requests of the real MultiOpQueryer.Query are enumerated " +
+		Rule: "scenario = (N requests, max batch size m, request identities {all distinct, all equal, repeating with period m (byte-equal chunks)}; the service numbers every request it executes; failure kind in {none, none with answers that spell out empty errors lists, transport error, transport error wrapping EOF (connection broke after the call arrived), transport error wrapping context.Canceled, status 500, 502 with a well-formed body, non-JSON body, GraphQL errors in the element, empty errors list with null data}, failing chunk); all completion orders of the concurrent chunk requests of the real MultiOpQueryer.Query are enumerated " +
 			"(all interleavings, state-cached, unbounded); outcome = verdict plus arrival order of the HTTP calls; non-trivial = >1 execution",
 		Assumptions: []string{
 			"the in-memory RoundTripper stands for the service; one scheduling point while the call is in flight",
@@ -224,9 +255,15 @@ func init() {
 					}
 					out = append(out, Scenario{Name: fmt.Sprintf("N=%d m=%d no-fault, answers with empty errors lists", n, m), Atoms: []string{"nofault", "ok-empty-errors"},
 						Opt: explore.Options{Bound: -1, Cache: true, StartBranch: true}, H: c11Harness(n, m, "ok-empty-errors", 0)})
-					kinds := []string{"transport", "transport-eof"}
+					if n > 1 {
+						for _, pat := range []string{"equal", "period"} {
+							out = append(out, Scenario{Name: fmt.Sprintf("N=%d m=%d no-fault, %s requests", n, m, pat), Atoms: []string{"nofault", "requests-" + pat},
+								Opt: explore.Options{Bound: -1, Cache: true, StartBranch: true}, H: c11Harness(n, m, "", 0, pat)})
+						}
+					}
+					kinds := []string{"transport", "transport-eof", "transport-canceled"}
 					if n <= 4 || tier == "thorough" {
-						kinds = []string{"transport", "transport-eof", "status", "badjson", "status-validbody", "graphql-errors", "errors-empty-datanull"}
+						kinds = []string{"transport", "transport-eof", "transport-canceled", "status", "badjson", "status-validbody", "graphql-errors", "errors-empty-datanull"}
 					}
 					for _, k := range kinds {
 						for c := 0; c < chunks; c++ {
